@@ -12,6 +12,13 @@ Rewrites (one site each):
   PASS-INSERT    a `pass` inserted as the first statement (shifts every line / index)
   TEMP-RETURN    return e  ->  _rv = e; return _rv
   IFEXP-TO-STMT  x = a if c else b  ->  if c: x = a else: x = b
+  HOIST-ARG      x = f(expr, ...)   ->  _a = expr; x = f(_a, ...)      (first positional argument, evaluated first anyway)
+  SWAP-INDEP     two adjacent call-free assignments to different locals that do not mention each other, swapped
+  ELSE-DROP      if c: ...return  else: B   ->  if c: ...return ; B
+  ELSE-ADD       if c: ...return ; B        ->  if c: ...return  else: B
+  CHAIN-SPLIT    a <= t <= b  ->  a <= t and t <= b      (call-free t)
+  MSG-EDIT       the text of a raised message changed
+  CTOR-LITERAL   list() -> [] , dict() -> {}
 
 Purely static: variants are source files in a temp dir outside /repo and /verif,
 analysed by the same engine, then deleted."""
@@ -127,6 +134,99 @@ def equivalents_of(fn: ast.FunctionDef) -> List[Tuple[str, ast.FunctionDef]]:
                 b_ = ast.Assign(targets=[copy.deepcopy(t.targets[0])], value=t.value.orelse, lineno=t.lineno, col_offset=t.col_offset)
                 _replace_stmt(new, t, [ast.If(test=t.value.test, body=[a_], orelse=[b_])])
             variant(f"L{ln} IFEXP-TO-STMT {ast.unparse(n)[:50]}", i, ife)
+
+    # --- more site rewrites
+    def _leaves(st):
+        return isinstance(st, (ast.Return, ast.Raise, ast.Continue, ast.Break))
+    for n in nodes:
+        i = index[id(n)]
+        ln = getattr(n, "lineno", 0)
+        if isinstance(n, (ast.Assign, ast.Expr, ast.Return)) and isinstance(getattr(n, "value", None), ast.Call):
+            c = n.value
+            if c.args and not isinstance(c.args[0], (ast.Name, ast.Constant, ast.Starred)) and isinstance(c.func, (ast.Name, ast.Attribute)) and _call_free(c.func) \
+                    and not any(isinstance(x, (ast.Lambda, ast.ListComp, ast.SetComp, ast.DictComp, ast.GeneratorExp, ast.NamedExpr, ast.Await, ast.Yield)) for x in ast.walk(c.args[0])):
+                def hoist(new, t):
+                    nm = "_a0"
+                    while nm in all_names:
+                        nm += "_"
+                    arg = t.value.args[0]
+                    t.value.args[0] = ast.Name(id=nm, ctx=ast.Load())
+                    _replace_stmt(new, t, [ast.Assign(targets=[ast.Name(id=nm, ctx=ast.Store())], value=arg, lineno=t.lineno, col_offset=t.col_offset), t])
+                variant(f"L{ln} HOIST-ARG {ast.unparse(n)[:50]}", i, hoist)
+        if isinstance(n, ast.If) and n.orelse and n.body and _leaves(n.body[-1]) and not (len(n.orelse) == 1 and isinstance(n.orelse[0], ast.If)):
+            def drop(new, t):
+                tail = t.orelse
+                t.orelse = []
+                _replace_stmt(new, t, [t] + tail)
+            variant(f"L{ln} ELSE-DROP {ast.unparse(n.test)[:50]}", i, drop)
+        if isinstance(n, ast.Compare) and len(n.ops) == 2 and _call_free(n.comparators[0]):
+            def split(new, t):
+                import copy as _c
+                a = ast.Compare(left=t.left, ops=[t.ops[0]], comparators=[t.comparators[0]])
+                b = ast.Compare(left=_c.deepcopy(t.comparators[0]), ops=[t.ops[1]], comparators=[t.comparators[1]])
+                repl = ast.BoolOp(op=ast.And(), values=[a, b])
+                for p_ in ast.walk(new):
+                    for f_, v_ in ast.iter_fields(p_):
+                        if v_ is t:
+                            setattr(p_, f_, repl)
+                            return
+                        if isinstance(v_, list) and any(x is t for x in v_):
+                            v_[[k for k, x in enumerate(v_) if x is t][0]] = repl
+                            return
+                raise LookupError
+            variant(f"L{ln} CHAIN-SPLIT {ast.unparse(n)[:50]}", i, split)
+        if isinstance(n, ast.Raise) and n.exc is not None:
+            strs = [x for x in ast.walk(n.exc) if isinstance(x, ast.Constant) and isinstance(x.value, str)]
+            if strs:
+                def msg(new, t):
+                    for x in ast.walk(t.exc):
+                        if isinstance(x, ast.Constant) and isinstance(x.value, str):
+                            x.value = x.value + " (reworded)"
+                            return
+                variant(f"L{ln} MSG-EDIT", i, msg)
+        if isinstance(n, ast.Call) and isinstance(n.func, ast.Name) and n.func.id in ("list", "dict") and not n.args and not n.keywords:
+            def lit(new, t):
+                repl = ast.List(elts=[], ctx=ast.Load()) if t.func.id == "list" else ast.Dict(keys=[], values=[])
+                for p_ in ast.walk(new):
+                    for f_, v_ in ast.iter_fields(p_):
+                        if v_ is t:
+                            setattr(p_, f_, repl)
+                            return
+                        if isinstance(v_, list) and any(x is t for x in v_):
+                            v_[[k for k, x in enumerate(v_) if x is t][0]] = repl
+                            return
+                raise LookupError
+            variant(f"L{ln} CTOR-LITERAL {ast.unparse(n)}", i, lit)
+    # blocks: ELSE-ADD and SWAP-INDEP
+    blocks = []
+    for n in nodes:
+        for field in ("body", "orelse", "finalbody"):
+            blk = getattr(n, field, None)
+            if isinstance(blk, list) and blk and isinstance(blk[0], ast.stmt):
+                blocks.append((n, field, blk))
+    for owner, field, blk in blocks:
+        for k, st in enumerate(blk):
+            if isinstance(st, ast.If) and not st.orelse and st.body and _leaves(st.body[-1]) and k + 1 < len(blk):
+                def add(new, t, field=field, owner_i=index[id(owner)]):
+                    nn = _own_nodes(new)
+                    b = getattr(nn[owner_i], field)
+                    pos = [j for j, x in enumerate(b) if x is t][0]
+                    t.orelse = b[pos + 1:]
+                    del b[pos + 1:]
+                variant(f"L{st.lineno} ELSE-ADD {ast.unparse(st.test)[:50]}", index[id(st)], add)
+            if k + 1 < len(blk):
+                a, b2 = st, blk[k + 1]
+                if all(isinstance(x, ast.Assign) and len(x.targets) == 1 and isinstance(x.targets[0], ast.Name) and _call_free(x.value) and not any(isinstance(y, ast.Subscript) for y in ast.walk(x.value)) for x in (a, b2)):
+                    na, nb = a.targets[0].id, b2.targets[0].id
+                    used_a = {y.id for y in ast.walk(a.value) if isinstance(y, ast.Name)}
+                    used_b = {y.id for y in ast.walk(b2.value) if isinstance(y, ast.Name)}
+                    if na != nb and na not in used_b and nb not in used_a:
+                        def swp(new, t, field=field, owner_i=index[id(owner)]):
+                            nn = _own_nodes(new)
+                            b = getattr(nn[owner_i], field)
+                            pos = [j for j, x in enumerate(b) if x is t][0]
+                            b[pos], b[pos + 1] = b[pos + 1], b[pos]
+                        variant(f"L{a.lineno} SWAP-INDEP {ast.unparse(a)[:30]} <-> {ast.unparse(b2)[:30]}", index[id(a)], swp)
 
     def ins(new, _t):
         k = 1 if new.body and isinstance(new.body[0], ast.Expr) and isinstance(new.body[0].value, ast.Constant) and isinstance(new.body[0].value.value, str) else 0
